@@ -1,5 +1,5 @@
 //! A step that never returns cannot report itself. A second thread watches the case in progress:
-//! more than 10 s of process CPU time, or 120 s of wall time, inside one case ends the process
+//! more than 10 s of user-mode CPU time of the process, or 300 s of wall time, inside one case ends the process
 //! with exit code 3 after recording which case it was; the driver records the verdict and resumes
 //! the shard after that case.
 use std::sync::atomic::{AtomicI64, AtomicU64, Ordering};
@@ -9,20 +9,9 @@ static CASE: AtomicI64 = AtomicI64::new(-1);
 static CPU0: AtomicU64 = AtomicU64::new(0);
 static WALL0: AtomicU64 = AtomicU64::new(0);
 
-#[repr(C)]
-struct Timespec {
-    tv_sec: i64,
-    tv_nsec: i64,
-}
-unsafe extern "C" {
-    fn clock_gettime(clk: i32, ts: *mut Timespec) -> i32;
-}
-const CLOCK_PROCESS_CPUTIME_ID: i32 = 2;
-
 fn process_cpu_ms() -> u64 {
-    let mut ts = Timespec { tv_sec: 0, tv_nsec: 0 };
-    unsafe { clock_gettime(CLOCK_PROCESS_CPUTIME_ID, &mut ts) };
-    ts.tv_sec as u64 * 1000 + ts.tv_nsec as u64 / 1_000_000
+    // user-mode time only: a step that never returns burns user time; an overloaded kernel burns system time
+    crate::meter::process_user_us() / 1000
 }
 
 fn epoch() -> Instant {
@@ -55,7 +44,7 @@ pub fn start(abort_path: String) {
             if CASE.load(Ordering::SeqCst) != case {
                 continue;
             }
-            if cpu > 10_000 || wall > 120_000 {
+            if cpu > 10_000 || wall > 300_000 {
                 let kind = if cpu > 10_000 { "cpu" } else { "stuck" };
                 let _ = std::fs::write(&abort_path, format!("{{\"case\":{case},\"kind\":\"{kind}\",\"cpu_ms\":{cpu},\"wall_ms\":{wall}}}\n"));
                 std::process::exit(3);
